@@ -5,7 +5,7 @@ import (
 	"go/token"
 	"go/types"
 
-	"golang.org/x/tools/go/cfg"
+	cfg "verifcheck/cfgx"
 )
 
 // FindNodes returns the locations of CFG nodes for which pred holds on some sub-node
@@ -57,6 +57,17 @@ func (g *Graph) DominatingHit(hits []Hit, loc Loc) *Hit {
 var errorType = types.Universe.Lookup("error").Type()
 
 func isErrorType(t types.Type) bool { return t != nil && types.Identical(t, errorType) }
+
+// implementsError: t is error or a concrete type with an Error() string method.
+func implementsError(t types.Type) bool {
+	if t == nil {
+		return false
+	}
+	if isErrorType(t) {
+		return true
+	}
+	return types.Implements(t, errorType.Underlying().(*types.Interface))
+}
 
 // ResultVar finds the variable that receives result #idx (negative: from the end) of
 // the call `call`, looking at the statement `top` that contains it:
@@ -274,7 +285,7 @@ func (g *Graph) ReturnKind(ex Exit) RetKind {
 					}
 				}
 			}
-			if v, ok := o.(*types.Var); ok && v.Pkg() != nil && v.Parent() == v.Pkg().Scope() && isErrorType(v.Type()) {
+			if v, ok := o.(*types.Var); ok && v.Pkg() != nil && v.Parent() == v.Pkg().Scope() && implementsError(v.Type()) {
 				return RetError // package-level sentinel error
 			}
 		}
@@ -288,7 +299,7 @@ func (g *Graph) ReturnKind(ex Exit) RetKind {
 		return RetUnknown
 	}
 	if se, ok := last.(*ast.SelectorExpr); ok {
-		if v, ok := g.Info.Uses[se.Sel].(*types.Var); ok && !v.IsField() && isErrorType(v.Type()) {
+		if v, ok := g.Info.Uses[se.Sel].(*types.Var); ok && !v.IsField() && implementsError(v.Type()) {
 			return RetError // pkg.ErrX
 		}
 	}
@@ -324,4 +335,88 @@ func (g *Graph) NodeCalls(n ast.Node, names ...string) *ast.CallExpr {
 		}
 	}
 	return nil
+}
+
+// FailureReaches reports whether `target` can execute after call h has FAILED (its
+// error result non-nil / bool result false), following the nearest test of that
+// result. checked=false when no test of the call's result was found at all (the
+// error is dropped), in which case the failure trivially reaches whatever follows.
+func (g *Graph) FailureReaches(h Hit, target Loc) (reaches bool, checked bool) {
+	call, isCall := h.Node.(*ast.CallExpr)
+	if !isCall {
+		return true, false
+	}
+	v := ResultVar(g.Info, h.Top, call, -1)
+	for _, cb := range g.CondBlocks() {
+		cl := g.CondLoc(cb.B)
+		if !g.Dominates(h.Loc, cl) || cb.Tag != nil {
+			continue
+		}
+		// which successor is the failure edge?
+		fail := -1
+		e := ast.Unparen(cb.Cond)
+		neg := false
+		for {
+			u, ok := e.(*ast.UnaryExpr)
+			if !ok || u.Op != token.NOT {
+				break
+			}
+			neg = !neg
+			e = ast.Unparen(u.X)
+		}
+		if x, eq, ok := IsNilCheck(g.Info, e); ok {
+			match := ast.Unparen(x) == ast.Expr(call)
+			if id, isID := ast.Unparen(x).(*ast.Ident); isID && v != nil && g.Info.Uses[id] == v {
+				match = true
+			}
+			if match {
+				if eq != neg { // cond true means nil (success)
+					fail = 1
+				} else {
+					fail = 0
+				}
+			}
+		} else if id, isID := e.(*ast.Ident); isID && v != nil && g.Info.Uses[id] == v {
+			if neg {
+				fail = 0
+			} else {
+				fail = 1
+			}
+		} else if e == ast.Expr(call) {
+			if neg {
+				fail = 0
+			} else {
+				fail = 1
+			}
+		}
+		if fail < 0 {
+			continue
+		}
+		// reassignment between call and test invalidates
+		if v != nil {
+			re := false
+			for _, as := range g.AssignsTo(v) {
+				if as.Loc != h.Loc && g.Dominates(h.Loc, as.Loc) && g.Dominates(as.Loc, cl) {
+					re = true
+				}
+			}
+			if re {
+				continue
+			}
+		}
+		checked = true
+		start := StartOf(cb.B.Succs[fail])
+		if start.B == target.B && target.I >= 0 {
+			// target in the failure block itself
+			reaches = true
+		}
+		g.Walk(start, func(n ast.Node, l Loc) bool {
+			if l == target {
+				reaches = true
+			}
+			return reaches
+		})
+		return reaches, true
+	}
+	return true, false
 }
